@@ -1,9 +1,10 @@
 import FinamModel.TimeAdapters
+import FinamModel.Props.TrCommon
+import FinamModel.Props.TrTimeBase
 import FinamModel.Translated.NextTime__interpolate
 import FinamModel.Translated.PreviousTime__interpolate
 import FinamModel.Translated.LinearTime__interpolate
 import FinamModel.Translated.StepTime__interpolate
-import FinamModel.Translated.TimeCachingAdapter__clear_cached_data
 import FinamModel.Translated.TimeCachingAdapter__get_data_next
 import FinamModel.Translated.TimeCachingAdapter__get_data_prev
 import FinamModel.Translated.TimeCachingAdapter__get_data_linear
@@ -14,13 +15,6 @@ import FinamModel.Translated.TimeCachingAdapter__get_data_step
 -/
 namespace Finam.Props.C11
 open Finam Finam.Py
-
-theorem tr_interpolate (o n dt : Rat) : Tr.interpolate o n dt = .ok (TA.lerp o n dt) := rfl
-
-theorem tr_interpolate_step {α} (o n : α) (dt pos : Rat) :
-    Tr.interpolate_step o n dt pos = .ok (TA.stepSel o n dt pos) := by
-  unfold Tr.interpolate_step TA.stepSel
-  by_cases h : dt > pos <;> simp [h]
 
 theorem next_loop {α} (full : List (Int × α)) (t : Int) (d : List (Int × α)) :
     Tr.NextTime__interpolate.loop1 full t d = TA.nextLoop (toE d) t := by
@@ -42,24 +36,6 @@ theorem tr_NextTime__interpolate {α} (d : List (Int × α)) (t : Int) :
     have : ¬ (Py.len r + 1 + 1 = 1) := by have := len_nonneg r; omega
     simp [TA.nextInterp, next_loop, this]
 
-/-- a suffix of the buffer, enumerated from `k`: its `j`-th element is `full[k + j]` -/
-def SufAt {α} (full suf : List (Int × α)) (k : Int) : Prop :=
-  ∀ (j : Nat) (x : Int × α), suf[j]? = some x → idx full (k + j) = .ok x
-
-theorem sufAt_self {α} (d : List (Int × α)) : SufAt d d 0 := by
-  intro j x h; simpa using idx_nat d j x h
-
-theorem sufAt_tail {α} {full : List (Int × α)} {e suf k} (h : SufAt full (e :: suf) k) :
-    SufAt full suf (k + 1) ∧ idx full (k + 1 - 1) = .ok e := by
-  constructor
-  · intro j x hj
-    have := h (j + 1) x (by simpa using hj)
-    have e1 : k + ((j + 1 : Nat) : Int) = k + 1 + (j : Int) := by omega
-    rw [e1] at this; exact this
-  · have := h 0 e (by simp)
-    have e1 : k + 1 - 1 = k + ((0 : Nat) : Int) := by omega
-    rw [e1]; exact this
-
 theorem prev_loop {α} (full : List (Int × α)) (t : Int) :
     ∀ (suf : List (Int × α)) (k : Int) (p : Int × α), idx full (k - 1) = .ok p → SufAt full suf k →
       Tr.PreviousTime__interpolate.loop1 full t (enumFrom k suf) = TA.prevLoop ⟨p.1, p.2⟩ (toE suf) t := by
@@ -76,17 +52,6 @@ theorem prev_loop {α} (full : List (Int × α)) (t : Int) :
     · by_cases h2 : t = t'
       · simp [h2]
       · simp [h1, h2, hp]
-
-/-- `data[-1]` of a non-empty list is `lastE` -/
-theorem idx_last {α} (e0 : Int × α) (es : List (Int × α)) :
-    idx (e0 :: es) (-1) = .ok ((TA.lastE ⟨e0.1, e0.2⟩ (toE es)).t, (TA.lastE ⟨e0.1, e0.2⟩ (toE es)).v) := by
-  apply idx_neg_one
-  induction es generalizing e0 with
-  | nil => simp [TA.lastE]
-  | cons e es ih =>
-    have := ih e
-    simp [TA.lastE, List.getLast?_cons_cons] at this ⊢
-    exact this
 
 /-- `PreviousTime._interpolate` = `TA.prevInterp` -/
 theorem tr_PreviousTime__interpolate {α} (d : List (Int × α)) (t : Int) :
@@ -214,55 +179,6 @@ theorem tr_StepTime__interpolate {α} (d : List (Int × α)) (pos : Rat) (t : In
     have := step_loop (p :: q :: r) pos t (q :: r) (0 + 1) p (by simp) (sufAt_tail (sufAt_self _)).1 hs
     rw [hmodel, ← this, ← hstep]
     simp [hl, enumerate]
-
-theorem ofE_toE {α} (r : List (Int × α)) : List.map (fun e => (e.t, e.v)) (toE r) = r := by
-  induction r with
-  | nil => rfl
-  | cons x r ih => simp [ih]
-
-/-- the eviction loop `while len(self.data) > 1 and self.data[1][0] <= time: self.data.pop(0)` = `TA.clear`
-    (and the fuel `len + 1` is enough) -/
-theorem clear_while {α} (t : Int) : ∀ (fuel : Nat) (d : List (Int × α)), d.length < fuel →
-    Tr.TimeCachingAdapter__clear_cached_data.while1 d t fuel = .ok (ofE (TA.clear (toE d) t)) := by
-  intro fuel
-  induction fuel with
-  | zero => intro d h; omega
-  | succ fuel ih =>
-    intro d h
-    unfold Tr.TimeCachingAdapter__clear_cached_data.while1
-    match d with
-    | [] => simp [TA.clear, ofE]
-    | [p] => simp [TA.clear, ofE]
-    | p :: q :: r =>
-      have hl : Py.len r + 1 + 1 > 1 := by have := len_nonneg r; omega
-      have hi : idx (p :: q :: r) 1 = .ok q := by simpa using idx_nat (p :: q :: r) 1 q (by simp)
-      simp only [len_cons, hl, if_true, hi, ok_bind, toE_cons, TA.clear]
-      by_cases hc : q.1 ≤ t
-      · have := ih (q :: r) (by simp at h ⊢; omega)
-        simp only [toE_cons] at this
-        simp [hc, Py.pop0, this]
-      · simp [hc, ofE]
-        exact (ofE_toE r).symm
-
-theorem tr_TimeCachingAdapter__clear_cached_data {α} (d : List (Int × α)) (t : Int) :
-    Tr.TimeCachingAdapter__clear_cached_data d t = .ok (ofE (TA.clear (toE d) t)) := by
-  unfold Tr.TimeCachingAdapter__clear_cached_data
-  apply clear_while
-  simp [Py.len]
-
-/-- `check_time(logger, time, (lo, hi))` with both bounds given: first the upper bound, then the lower one,
-    a `FinamTimeError` either way -/
-theorem tr_check_time (t lo hi : Int) :
-    Tr.check_time t (some lo, some hi) = (if t > hi then .error .timeErr else if t < lo then .error .timeErr else .ok ()) := by
-  unfold Tr.check_time
-  by_cases h1 : t > hi <;> by_cases h2 : t < lo <;> simp [Py.unwrap, h1, h2]
-
-/-- the emptiness test and `check_time(…, (data[0][0], data[-1][0]))` of `_get_data` are `TA.checkRange` -/
-theorem check_range_tr {α} (p : Int × α) (r : List (Int × α)) (t : Int) :
-    (do let a ← idx (p :: r) 0
-        let b ← idx (p :: r) (-1)
-        Tr.check_time t (some a.1, some b.1) : Except Err Unit) = TA.checkRange (toE (p :: r)) t := by
-  simp only [idx_zero_cons, ok_bind, idx_last, tr_check_time, toE_cons, TA.checkRange]
 
 theorem sorted_head_le {α} (p : Int × α) (r : List (Int × α)) (t : Int)
     (h : TA.checkRange (toE (p :: r)) t = .ok ()) : ∀ e ∈ (p :: r).head?, e.1 ≤ t := by
